@@ -416,17 +416,25 @@ Local Open Scope float_scope.
 '''
 
 def emit_cases(dirname, sessions, per_file=60, prefix='ccases'):
+    """write the case files; sessions are distributed over the files so that the files carry about the same number of
+    steps (longest first, each to the lightest file) -- coqc runs one file per core and the slowest file is the wall time"""
+    nfiles = max(1, (len(sessions) + per_file - 1) // per_file)
+    bins = [[] for _ in range(nfiles)]; load = [0] * nfiles
+    for i in sorted(range(len(sessions)), key=lambda i: -len(sessions[i].ops)):
+        k = min(range(nfiles), key=lambda k: (load[k], k))
+        bins[k].append(i); load[k] += len(sessions[i].ops) + 5
     files = []
-    for fi in range(0, len(sessions), per_file):
-        chunk = sessions[fi:fi + per_file]
-        path = os.path.join(dirname, '%s_%d.v' % (prefix, fi // per_file))
+    for k, idx in enumerate(bins):
+        if not idx: continue
+        idx.sort()
+        path = os.path.join(dirname, '%s_%d.v' % (prefix, k))
         with open(path, 'w') as f:
             f.write(HEADER)
-            for j, s in enumerate(chunk):
-                f.write('Definition c%d : ccase := %s.\n' % (j, s.case_term()))
-            f.write('Definition all_cases : list ccase := %s.\n' % clist(['c%d' % j for j in range(len(chunk))]))
+            for j, i in enumerate(idx):
+                f.write('Definition c%d : ccase := %s.\n' % (j, sessions[i].case_term()))
+            f.write('Definition all_cases : list ccase := %s.\n' % clist(['c%d' % j for j in range(len(idx))]))
             f.write('Eval vm_compute in (report_ccases all_cases).\n')
-        files.append((path, list(range(fi, fi + len(chunk)))))
+        files.append((path, idx))
     return files
 
 def run_sessions(sessions, name, per_file=60):
